@@ -138,6 +138,8 @@ pub struct Verdict {
     pub error_text: String,
     pub state_reached: bool,
     pub wait_us: u64,
+    /// of that, simulated time that passed while nothing at all was runnable
+    pub idle_wait_us: u64,
     pub ports_bound_at_exit: Vec<u16>,
     pub hang: bool,
     pub notes: Vec<String>,
@@ -516,6 +518,7 @@ pub fn scenario(case: &Case, slot: &Arc<StdMutex<Option<Verdict>>>) {
         clock::sleep(Duration::from_millis(25));
     }
     v.wait_us = clock::now_us() - t0;
+    v.idle_wait_us = clock::quiescent_us() - q0;
     if v.hang {
         v.ports_bound_at_exit = net::bound_ports();
         hist("harness", "hang", json!({"waited_us": v.wait_us}));
@@ -765,6 +768,8 @@ fn replay(cli: &Cli, path: &std::path::Path) -> i32 {
 
 #[derive(Default, serde::Serialize, serde::Deserialize)]
 struct Acc {
+    max_wait_us: u64,
+    max_idle_wait_us: u64,
     runs: u64,
     steps: u64,
     switches: u64,
@@ -874,6 +879,12 @@ pub fn main(cli: &Cli) -> i32 {
             ] {
                 *acc.net.entry(k2.to_string()).or_insert(0) += v;
             }
+            if let Some(v) = &r.verdict {
+                if !v.hang && case.variant != 3 {
+                    acc.max_idle_wait_us = acc.max_idle_wait_us.max(v.idle_wait_us);
+                    acc.max_wait_us = acc.max_wait_us.max(v.wait_us);
+                }
+            }
             let mut dg = r.trace;
             dg = rng::fnv64_extend(dg, &r.steps.to_le_bytes());
             dg = rng::fnv64_extend(
@@ -910,6 +921,8 @@ pub fn main(cli: &Cli) -> i32 {
             t.steps += a.steps;
             t.switches += a.switches;
             t.sim_us += a.sim_us;
+            t.max_wait_us = t.max_wait_us.max(a.max_wait_us);
+            t.max_idle_wait_us = t.max_idle_wait_us.max(a.max_idle_wait_us);
             t.quiescence_jumps += a.quiescence_jumps;
             t.early_firings += a.early_firings;
             t.nontrivial.extend(a.nontrivial);
@@ -992,6 +1005,7 @@ pub fn main(cli: &Cli) -> i32 {
     ev.set("context_switches", json!(acc.switches));
     ev.set("simulated_time_ms", json!(acc.sim_us / 1000));
     ev.set("clock_jumps_at_quiescence", json!(acc.quiescence_jumps));
+    ev.set("calibration_of_the_hang_rule (runs that exited, bound 5000 ms)", json!({"longest_time_to_exit_after_the_last_client_action_ms": acc.max_wait_us / 1000, "longest_part_of_it_with_nothing_runnable_ms": acc.max_idle_wait_us / 1000}));
     ev.set("early_timer_firings", json!(acc.early_firings));
     ev.set("distinct_interleavings", json!(acc.traces.len()));
     ev.set(
